@@ -310,6 +310,34 @@ def check(prop, tier, seed, replay):
     failures = list(res.get("failures") or [])
     case_index = res.get("extra", {}).get("case_index", {})
 
+    # ---- 3b. the corpus: stored replays of every recorded finding (open ones must still be
+    # explained by their entry, fixed ones must pass) and minimised past disagreements
+    corpus_files = [] if replay else sorted(glob.glob(os.path.join(ROOT, "corpus", prop, "*.json")))
+    corpus_ran = 0
+    def run_corpus(item):
+        i, path = item
+        od = os.path.join(run_dir, "corpus_%d" % i)
+        os.makedirs(od, exist_ok=True)
+        c = [os.path.join(BIN, "vdrv"), "-prop", prop, "-tier", "quick", "-seed", str(seed), "-out", od, "-replay", path]
+        rc_c, out_c = sh(c, cwd=ROOT, timeout=600, env=env)
+        rj = os.path.join(od, "result.json")
+        if rc_c == 0 and os.path.exists(rj):
+            return path, json.load(open(rj)), None
+        return path, None, out_c[-1500:]
+    if corpus_files:
+        with ThreadPoolExecutor(max_workers=6) as ex:
+            for path, rj, err in ex.map(run_corpus, list(enumerate(corpus_files))):
+                name = os.path.relpath(path, ROOT)
+                if rj is None:
+                    failures.append({"case": "corpus:" + name, "class": "%s/corpus-replay-crashed" % prop,
+                                     "what": "replaying %s did not complete: %s" % (name, err), "replay": {"corpus_file": name}})
+                    continue
+                corpus_ran += 1
+                for f in (rj.get("failures") or []):
+                    f = dict(f)
+                    f["case"] = "corpus:%s/%s" % (name, f.get("case"))
+                    failures.append(f)
+
     # ---- 4. model on the same cases, inside the kernel ------------------------------------------
     corr_mismatch, spec_fail = [], []
     corr_ok = True
@@ -346,6 +374,9 @@ def check(prop, tier, seed, replay):
     for f in failures:
         k = next((k for k in open_known if k.get("class") == f.get("class")), None)
         if k is not None:
+            if k["id"] not in matched and os.environ.get("VERIF_SAVE_KNOWN"):
+                write_replay(prop, "known-%s" % k["id"], {"property": prop, "case": f["case"], "class": f["class"], "what": f["what"],
+                                                          "replay": f.get("replay"), "replay_cmd": "./check %s --replay <this file>" % prop})
             matched.setdefault(k["id"], 0)
             matched[k["id"]] += 1
         else:
@@ -397,7 +428,7 @@ def check(prop, tier, seed, replay):
                     "corr_mismatches": len(corr_mismatch), "corr_mismatches_explained_by_known_findings": len(corr_mismatch) - len(unexplained_all), "spec_failures_in_kernel": len(spec_fail),
                     "kernel_eval_s": round(kernel_s, 2), "known_findings_matched": matched,
                     "statements_in_cone": n_stmts, "cone_files": cone_files,
-                    "oracle_failures_on_impl": len(failures)},
+                    "oracle_failures_on_impl": len(failures), "corpus_replays_run": corpus_ran},
                    t0, len(violations), notes)
     if exit_code == 0:
         print("%s %s: ok  (theorems %d, cone statements %d, impl cases %d, kernel-evaluated cases %d, known findings %d) %.1fs" % (
